@@ -2,10 +2,12 @@ package sqlx
 
 import (
 	"context"
+	"database/sql"
 	"errors"
 	"fmt"
 	"strings"
 	"testing"
+	"time"
 
 	vrt "github.com/gotid/god"
 	"github.com/gotid/god/lib/logx"
@@ -22,10 +24,28 @@ type txCase struct {
 	final                            string // nil err panic
 	panicAt                          int    // panic before statement i (final=="panic")
 	entry                            string // Transact TransactCtx
+	ctxMode                          string // live | done-before | done-in-body | deadline (TransactCtx only)
+}
+
+// hctx is a hand-made context whose end the harness decides.
+type hctx struct {
+	done chan struct{}
+	err  error
+}
+
+func (c *hctx) Deadline() (time.Time, bool) { return time.Time{}, false }
+func (c *hctx) Done() <-chan struct{}       { return c.done }
+func (c *hctx) Err() error                  { return c.err }
+func (c *hctx) Value(any) any               { return nil }
+func (c *hctx) end(err error) {
+	if c.err == nil {
+		c.err = err
+		close(c.done)
+	}
 }
 
 func (c txCase) String() string {
-	return fmt.Sprintf("entry=%s begin=%v stmts=%v onerr=%s final=%s@%d commitErr=%v rollbackErr=%v", c.entry, !c.beginErr, c.stmts, c.onStmtErr, c.final, c.panicAt, c.commitErr, c.rollbackErr)
+	return fmt.Sprintf("entry=%s ctx=%s begin=%v stmts=%v onerr=%s final=%s@%d commitErr=%v rollbackErr=%v", c.entry, c.ctxMode, !c.beginErr, c.stmts, c.onStmtErr, c.final, c.panicAt, c.commitErr, c.rollbackErr)
 }
 
 func txCases() []txCase {
@@ -45,7 +65,13 @@ func txCases() []txCase {
 						for _, pa := range panicPos {
 							for _, ce := range []bool{false, true} {
 								for _, re := range []bool{false, true} {
-									out = append(out, txCase{be, ce, re, stmts, onErr, final, pa, entry})
+									modes := []string{"live"}
+									if entry == "TransactCtx" {
+										modes = []string{"live", "done-before", "done-in-body", "deadline"}
+									}
+									for _, m := range modes {
+										out = append(out, txCase{be, ce, re, stmts, onErr, final, pa, entry, m})
+									}
 								}
 							}
 						}
@@ -55,6 +81,16 @@ func txCases() []txCase {
 		}
 	}
 	return out
+}
+
+// ctxSession routes Exec through ExecCtx with the transaction's context.
+type ctxSession struct {
+	ctx context.Context
+	Session
+}
+
+func (c ctxSession) Exec(q string, args ...any) (sql.Result, error) {
+	return c.Session.ExecCtx(c.ctx, q, args...)
 }
 
 func TestVerifTransact(t *testing.T) {
@@ -87,8 +123,18 @@ func TestVerifTransact(t *testing.T) {
 		conn := NewConnFromDB(db)
 		bodyRuns := 0
 		bodyOutcome := "" // what the body did: nil / err / stmterr / panic
+		hc := &hctx{done: make(chan struct{})}
+		switch k.ctxMode {
+		case "done-before":
+			hc.end(context.Canceled)
+		case "deadline":
+			hc.end(context.DeadlineExceeded)
+		}
 		body := func(s Session) error {
 			bodyRuns++
+			if k.ctxMode == "done-in-body" {
+				hc.end(context.Canceled)
+			}
 			for i := range k.stmts {
 				if k.final == "panic" && k.panicAt == i {
 					bodyOutcome = "panic"
@@ -117,11 +163,14 @@ func TestVerifTransact(t *testing.T) {
 			if k.entry == "Transact" {
 				res = conn.Transact(body)
 			} else {
-				res = conn.TransactCtx(context.Background(), func(_ context.Context, s Session) error { return body(s) })
+				res = conn.TransactCtx(hc, func(ctx context.Context, s Session) error {
+					// statements run under the caller's context, as a handler would
+					return body(ctxSession{ctx, s})
+				})
 			}
 		}()
 		db.Close()
-		class := fmt.Sprintf("begin=%v/body=%s/commitErr=%v/rollbackErr=%v", !k.beginErr, bodyOutcome, k.commitErr, k.rollbackErr)
+		class := fmt.Sprintf("ctx=%s/begin=%v/body=%s/commitErr=%v/rollbackErr=%v", k.ctxMode, !k.beginErr, bodyOutcome, k.commitErr, k.rollbackErr)
 		c.Eval(class, func() any {
 			return map[string]any{"case": k.String(), "result": fmt.Sprint(res), "panic": fmt.Sprint(pan), "commits": f.commits, "rollbacks": f.rollbacks}
 		})
@@ -151,6 +200,9 @@ func TestVerifTransact(t *testing.T) {
 			want := "body error"
 			if bodyOutcome == "stmterr" {
 				want = "driver fault"
+				if k.ctxMode != "live" {
+					want = "" // the statement may instead fail with the context's error
+				}
 			}
 			if res == nil || !strings.Contains(res.Error(), want) {
 				fail("error result", "body's error must be returned")
